@@ -370,6 +370,8 @@ pub fn gen_mixed(rng: &mut Rng, tag: u8, kind: Kind, p0len: usize, mbuff_len: us
         _ => 0,
     };
     let mut written = [false; 512];
+    // a quarter of these programs also call a small local function (which Cranelift refuses)
+    let with_callee = rng.chance(1, 4);
     let n = rng.range(6, 40);
     let mut units: Vec<Vec<[u8; 8]>> = Vec::new();
     for _ in 0..n {
@@ -466,6 +468,7 @@ pub fn gen_mixed(rng: &mut Rng, tag: u8, kind: Kind, p0len: usize, mbuff_len: us
                 v.push(ins(CALL, 0, 0, 0, key as i32));
                 v
             }
+            19 if with_callee => vec![ins(CALL, 0, 1, 0, 0)], // displacement patched below
             _ => vec![ins(0xbf, d, s2, 0, 0)],
         };
         units.push(unit);
@@ -491,7 +494,30 @@ pub fn gen_mixed(rng: &mut Rng, tag: u8, kind: Kind, p0len: usize, mbuff_len: us
     b.i(0x0f, 0, 7, 0, 0);
     b.i(0xaf, 0, 8, 0, 0);
     b.trailer(tag);
+    let mut has_call = false;
+    if with_callee {
+        // the callee: arithmetic on the data registers only (r6-r8 are restored on return, r0 is the result)
+        let callee_at = b.len();
+        b.i(0x0f, 0, 7, 0, 0); // add64 r0, r7
+        b.i(0xaf, 6, 0, 0, 0); // xor64 r6, r0
+        b.i(0x2f, 0, 6, 0, 0); // mul64 r0, r6
+        b.i(0x07, 0, 0, 0, rng.next_u64() as i32);
+        b.i(EXIT, 0, 0, 0, 0);
+        let mut i = 0;
+        while i + 8 <= b.v.len() {
+            if b.v[i] == CALL && (b.v[i + 1] >> 4) == 1 {
+                let disp = callee_at as i32 - (i as i32 / 8 + 1);
+                b.v[i + 4..i + 8].copy_from_slice(&disp.to_le_bytes());
+                has_call = true;
+            }
+            if b.v[i] == LD_DW_IMM {
+                i += 8;
+            }
+            i += 8;
+        }
+    }
     let mut p = mk(b.v, tag, Class::Mixed);
+    p.local_call = has_call;
     p.min_pkt = min_pkt;
     p.min_mbuff = if kind == Kind::Mbuff { mbuff_len } else { 0 };
     p
